@@ -140,7 +140,38 @@ type fmtResult struct {
 	Diags string
 }
 
+// staleVersion: the same document with other digits on its indented lines (an
+// older saved version whose posting lines differ only in their numbers).
+func staleVersion(text string) string {
+	lines := strings.Split(text, "\n")
+	for i, l := range lines {
+		if !strings.HasPrefix(l, " ") && !strings.HasPrefix(l, "\t") {
+			continue
+		}
+		b := []byte(l)
+		for k, ch := range b {
+			switch {
+			case ch >= '1' && ch <= '8':
+				b[k] = ch + 1
+			case ch == '9':
+				b[k] = '1'
+			}
+		}
+		lines[i] = string(b)
+	}
+	return strings.Join(lines, "\n")
+}
+
 func (f *fmtSession) format(text string) fmtResult {
+	if f.conf.Where == "workspace" {
+		// the workspace holds an older saved version of the document: the file on
+		// disk (read by the workspace when the document is closed) differs from
+		// the text the editor opens next
+		old := staleVersion(text)
+		_ = os.WriteFile(filepath.Join(f.dir, "doc.journal"), []byte(old), 0o644)
+		f.s.DidOpen(f.uri, old)
+		f.s.DidClose(f.uri)
+	}
 	f.s.DidOpen(f.uri, text)
 	r := f.s.Call("textDocument/formatting", `{"textDocument":{"uri":`+wire.Q(f.uri)+`},"options":{"tabSize":4,"insertSpaces":true}}`)
 	diags := f.s.Client.Last(f.uri)
